@@ -1,7 +1,38 @@
 // C02: inverse geodesic problem
 #include "geodcommon.hpp"
 #include "C02_series.hpp"
+#include "C02_full.hpp"
+#include <iostream>
+#include <string>
+#include <sstream>
+#include <fstream>
+#include <algorithm>
+#include <GeographicLib/DMS.hpp>
+#include <GeographicLib/Utility.hpp>
+// the command-line front end (observe_at: tools/GeodSolve -i) compiled from the current $GV_REPO/tools/GeodSolve.cpp into this
+// harness, as harness/C10.cpp does (tools/props.d/C02.py makes the harness cache key depend on its text)
+namespace tool_geodsolve {
+#include "../tools/GeodSolve.cpp"
+}
 using namespace gd; using namespace gv;
+
+// Failing inputs that belong to the *decidable class* of an open finding of the unchanged library carry a tag in their details
+// (known_findings.json matches on it); everything outside the class still alarms.  Open now: F71 (second root on strongly prolate
+// ellipsoids).  F68 (a12 > 180 at the equatorial cut-off), F69 (zero-length answer past the cut-off), F70 (bisection budget) and F67
+// (unassigned s12x in GeodesicExact) were found by these strata and are repaired (62054f0, 8088996, fe4d9c6, dc6d194): no class, they alarm.
+static std::string class_tag;
+static void BAD(const std::string& rel, const std::string& det) { gv::bad(rel, det + class_tag); }
+
+// The accuracy tables of Geodesic / GeodesicExact are for ellipsoids scaled to a quarter meridian of 10 000 km ("1/4 meridian = 10e6 m"
+// in GeodesicExact.cpp).  geodcommon.hpp scales the tolerance with a / 6378137, which is the same thing for nearly spherical ellipsoids;
+// on a prolate ellipsoid the meridian is longer (b = 4a at f = -3): scale with the quarter meridian, computed here by quadrature of
+// sqrt(a^2 sin^2 + b^2 cos^2) over the parametric latitude (never below 1, so nothing changes for oblate ellipsoids).
+static double qm_scale(double ea, double f) {
+  static double ka = 0, kf = 0, kv = 1; if (ea == ka && f == kf) return kv;
+  LD a = ea, b = ea * (1 - (LD)f); LD q = oracle::integrate([&](LD t) { return sqrtl(a * a * sinl(t) * sinl(t) + b * b * cosl(t) * cosl(t)); }, 0, oracle::PI / 2, 4);
+  ka = ea; kf = f; kv = std::fmax(1.0, (double)(q / (a * oracle::PI / 2))); return kv;
+}
+static double tolq(double acc, double ea, double f, double a12) { return tol_pos(acc, ea, a12) * qm_scale(ea, f); }
 
 struct Inv { double s12, azi1, azi2, a12, m12, M12, M21, S12; };
 template<class Geod> static Inv inv(const Geod& g, double lat1, double lon1, double lat2, double lon2) { Inv r; r.a12 = g.Inverse(lat1, lon1, lat2, lon2, r.s12, r.azi1, r.azi2, r.m12, r.M12, r.M21, r.S12); return r; }
@@ -9,7 +40,7 @@ template<class Geod> static Inv inv(const Geod& g, double lat1, double lon1, dou
 template<class Geod> static void props(const char* name, const Geod& g, double acc, double ea, double f, double lat1, double lon1, double lat2, double lon2) {
   if (std::isnan(acc)) return;
   Inv r = inv(g, lat1, lon1, lat2, lon2);
-  double tol = tol_pos(acc, ea, r.a12);
+  double tol = tolq(acc, ea, f, r.a12);
   // (F26/F28, fixed by d06599a: the exact solver used to stop bisecting too early for nearly equatorial geodesics on strongly prolate
   //  ellipsoids — closure errors from millimetres to hundreds of kilometres; the strata 13 of generate() keep watching that region)
   auto rel = [&](const char* base, double) { return std::string(base) + "-" + name; };
@@ -17,33 +48,33 @@ template<class Geod> static void props(const char* name, const Geod& g, double a
   if (oracle_ok(f)) {
     oracle::Line L(ea, f, lat1, lon1, r.azi1); oracle::Line::Pos p = L.position(false, r.s12);
     double d = (double)oracle::ground(ea, lat2, lon2, p.lat2, lon1 + p.lon12);
-    if (!(d <= 1.5 * tol)) bad(rel("inverse-closure", d), "following the returned azimuth and distance misses point 2 by " + std::to_string(d * 1e9) + " nm (tolerance " + std::to_string(1.5 * tol * 1e9) + ")");
+    if (!(d <= 1.5 * tol)) BAD(rel("inverse-closure", d), "following the returned azimuth and distance misses point 2 by " + std::to_string(d * 1e9) + " nm (tolerance " + std::to_string(1.5 * tol * 1e9) + ")");
     if (r.s12 > 1e-3) { LD ang = dir_angle(lat2, lon2, r.azi2, p.lat2, lon1 + p.lon12, p.azi2); double q = (1 - f) >= 1 ? (1 - f) : 1 / (1 - f);
       // azimuth at point 2: an end-point error d changes the azimuth by ~ d / s12 as well
-      if (!((double)ang <= (1.5 * tol / ea + 8e-16) * q + 2 * d / std::fmax(r.s12, 1e-3) + 2 * tol / std::fmax(std::fabs(r.m12), 1.0) * 0 + 1e-15)) bad(rel("inverse-azi2", (double)ang * ea), "returned forward azimuth differs from the geodesic's by " + std::to_string((double)ang) + " rad"); }
-    if (std::fabs((double)p.a12 - r.a12) * Math::degree() * ea > 1.5 * tol + 1e-9 * 0) bad(std::string("inverse-a12-") + name, "a12 inconsistent with the geodesic");
+      if (!((double)ang <= (1.5 * tol / ea + 8e-16) * q + 2 * d / std::fmax(r.s12, 1e-3) + 2 * tol / std::fmax(std::fabs(r.m12), 1.0) * 0 + 1e-15)) BAD(rel("inverse-azi2", (double)ang * ea), "returned forward azimuth differs from the geodesic's by " + std::to_string((double)ang) + " rad"); }
+    if (std::fabs((double)p.a12 - r.a12) * Math::degree() * ea > 1.5 * tol + 1e-9 * 0) BAD(std::string("inverse-a12-") + name, "a12 inconsistent with the geodesic");
     // shortest: on a prolate ellipsoid the longitudinal extent is at most 180
-    if (f < 0 && std::fabs(lat1) < 89.999999 && std::fabs(lat2) < 89.999999 && !(std::fabs((double)p.lon12) <= 180 + 1e-9 + 1.5 * tol / (ea * std::fmax(1e-9, std::fmin(std::cos(lat1 * Math::degree()), std::cos(lat2 * Math::degree())))) / Math::degree())) bad(rel("inverse-extent", (std::fabs((double)p.lon12) - 180) * Math::degree() * ea), "longitudinal extent " + std::to_string((double)p.lon12) + " > 180 on a prolate ellipsoid");
+    if (f < 0 && std::fabs(lat1) < 89.999999 && std::fabs(lat2) < 89.999999 && !(std::fabs((double)p.lon12) <= 180 + 1e-9 + 1.5 * tol / (ea * std::fmax(1e-9, std::fmin(std::cos(lat1 * Math::degree()), std::cos(lat2 * Math::degree())))) / Math::degree())) BAD(rel("inverse-extent", (std::fabs((double)p.lon12) - 180) * Math::degree() * ea), "longitudinal extent " + std::to_string((double)p.lon12) + " > 180 on a prolate ellipsoid");
   }
   // (2) shortest path: no conjugate point inside (m12 >= 0), triangle inequality through way points
-  if (r.a12 > 1e-6 && r.a12 < 179.999 && !(r.m12 >= -2 * tol)) bad(std::string("inverse-conjugate-") + name, "m12 = " + std::to_string(r.m12) + " < 0: a conjugate point lies inside the returned geodesic, it is not a shortest path");
+  if (r.a12 > 1e-6 && r.a12 < 179.999 && !(r.m12 >= -2 * tol)) BAD(std::string("inverse-conjugate-") + name, "m12 = " + std::to_string(r.m12) + " < 0: a conjugate point lies inside the returned geodesic, it is not a shortest path");
   { double wl[3][2] = {{(lat1 + lat2) / 2 + 7, lon1 + 0.5 * Math::AngDiff(lon1, lon2) + 11}, {std::fmax(-89.0, std::fmin(89.0, lat1 * 0.3 - lat2 * 0.2)), lon1 + 90}, {std::fmax(-89.0, std::fmin(89.0, lat2 + 20)), lon2 - 35}};
     for (auto& w : wl) { if (std::fabs(w[0]) > 90) continue; double s1, s2; g.Inverse(lat1, lon1, w[0], w[1], s1); g.Inverse(w[0], w[1], lat2, lon2, s2);
-      if (!(r.s12 <= s1 + s2 + 4 * tol)) { bad(rel("inverse-triangle", r.s12 - s1 - s2), "s12 = " + std::to_string(r.s12) + " exceeds the path through a way point by " + std::to_string(r.s12 - s1 - s2) + " m"); break; } } }
+      if (!(r.s12 <= s1 + s2 + 4 * tol)) { BAD(rel("inverse-triangle", r.s12 - s1 - s2), "s12 = " + std::to_string(r.s12) + " exceeds the path through a way point by " + std::to_string(r.s12 - s1 - s2) + " m"); break; } } }
   // (3) symmetries (up to the documented choice among equally short geodesics)
   bool unique = !(std::fabs(lat1 + lat2) < 1e-9 && r.a12 > 170) && r.a12 < 179.9 && std::fabs(std::fabs(Math::AngDiff(lon1, lon2)) - 180) > 1e-9 && r.s12 > 1e-3;
   auto aeq = [&](double x, double y) { return std::fabs(Math::AngDiff(x, y)) <= (3 * tol / std::fmax(std::fabs(r.m12), 1e-3) + 1e-13) / Math::degree() + 1e-12; };
   { Inv q = inv(g, lat2, lon2, lat1, lon1);   // exchange
-    if (!(std::fabs(q.s12 - r.s12) <= 2 * tol)) bad(std::string("symmetry-swap-") + name, "s12 changes when the end points are exchanged");
-    if (unique && !(aeq(q.azi1, r.azi2 + 180) && aeq(q.azi2, r.azi1 + 180))) bad(std::string("symmetry-swap-") + name, "azimuths not reversed when the end points are exchanged"); }
+    if (!(std::fabs(q.s12 - r.s12) <= 2 * tol)) BAD(std::string("symmetry-swap-") + name, "s12 changes when the end points are exchanged");
+    if (unique && !(aeq(q.azi1, r.azi2 + 180) && aeq(q.azi2, r.azi1 + 180))) BAD(std::string("symmetry-swap-") + name, "azimuths not reversed when the end points are exchanged"); }
   { Inv q = inv(g, -lat1, lon1, -lat2, lon2);  // equator
-    if (!(std::fabs(q.s12 - r.s12) <= 2 * tol)) bad(std::string("symmetry-equator-") + name, "s12 changes under reflection in the equator");
-    if (unique && !(aeq(q.azi1, 180 - r.azi1) && aeq(q.azi2, 180 - r.azi2))) bad(std::string("symmetry-equator-") + name, "azimuths not mirrored under reflection in the equator"); }
+    if (!(std::fabs(q.s12 - r.s12) <= 2 * tol)) BAD(std::string("symmetry-equator-") + name, "s12 changes under reflection in the equator");
+    if (unique && !(aeq(q.azi1, 180 - r.azi1) && aeq(q.azi2, 180 - r.azi2))) BAD(std::string("symmetry-equator-") + name, "azimuths not mirrored under reflection in the equator"); }
   { Inv q = inv(g, lat1, -lon1, lat2, -lon2);  // meridian
-    if (!(std::fabs(q.s12 - r.s12) <= 2 * tol)) bad(std::string("symmetry-meridian-") + name, "s12 changes under reflection in a meridian");
-    if (unique && !(aeq(q.azi1, -r.azi1) && aeq(q.azi2, -r.azi2))) bad(std::string("symmetry-meridian-") + name, "azimuths not mirrored under reflection in a meridian"); }
+    if (!(std::fabs(q.s12 - r.s12) <= 2 * tol)) BAD(std::string("symmetry-meridian-") + name, "s12 changes under reflection in a meridian");
+    if (unique && !(aeq(q.azi1, -r.azi1) && aeq(q.azi2, -r.azi2))) BAD(std::string("symmetry-meridian-") + name, "azimuths not mirrored under reflection in a meridian"); }
   { double l1 = lon1 + 360, l2 = lon2 - 720; if (l1 - 360 == lon1 && l2 + 720 == lon2) { Inv q = inv(g, lat1, l1, lat2, l2);
-    if (bits(q.s12) != bits(r.s12) || (unique && !(aeq(q.azi1, r.azi1) && aeq(q.azi2, r.azi2)))) bad(std::string("symmetry-360-") + name, "result changes when multiples of 360 are added to the longitudes"); } }
+    if (bits(q.s12) != bits(r.s12) || (unique && !(aeq(q.azi1, r.azi1) && aeq(q.azi2, r.azi2)))) BAD(std::string("symmetry-360-") + name, "result changes when multiples of 360 are added to the longitudes"); } }
 }
 
 static Reg r_inv("ginverse", [](const Args& a) {
@@ -52,14 +83,91 @@ static Reg r_inv("ginverse", [](const Args& a) {
   Inv rg = inv(G, lat1, lon1, lat2, lon2), re = inv(E, lat1, lon1, lat2, lon2), rx = inv(X, lat1, lon1, lat2, lon2);
   emit(hx(rg.s12) + " " + hx(rg.azi1) + " " + hx(rg.azi2) + " " + hx(rg.a12) + " " + hx(re.s12) + " " + hx(re.azi1) + " " + hx(re.azi2) + " " + hx(re.a12));
   if (!(std::isfinite(lat1) && std::isfinite(lat2) && std::isfinite(lon1) && std::isfinite(lon2)) || std::fabs(lat1) > 90 || std::fabs(lat2) > 90) return;
-  if (bits(rx.s12) != bits(re.s12) || bits(rx.azi1) != bits(re.azi1) || bits(rx.azi2) != bits(re.azi2) || bits(rx.m12) != bits(re.m12) || bits(rx.S12) != bits(re.S12)) bad("exact-true-delegation", "Geodesic(a,f,true).Inverse differs from GeodesicExact.Inverse");
+  if (bits(rx.s12) != bits(re.s12) || bits(rx.azi1) != bits(re.azi1) || bits(rx.azi2) != bits(re.azi2) || bits(rx.m12) != bits(re.m12) || bits(rx.S12) != bits(re.S12)) BAD("exact-true-delegation", "Geodesic(a,f,true).Inverse differs from GeodesicExact.Inverse");
+  // F71 (open): strongly prolate ellipsoids, end points within 1e-5 deg of opposite meridians: the solver converges to the second root of
+  // lambda12(alp1) = lam12 next to the meridian, a geodesic with a conjugate point inside (m12 < 0) that is not the shortest
+  { double e, l12 = std::fabs(Math::AngDiff(lon1, lon2, e)); class_tag = (f <= -0.25 && std::fabs(180 - l12) <= 1e-5 && re.m12 < -1) ? " [class:prolate-second-root]" : ""; }
   props("series", G, acc_series(f), ea, f, lat1, lon1, lat2, lon2);
   props("exact", E, acc_exact(f), ea, f, lat1, lon1, lat2, lon2);
   // the two solvers agree
   if (!std::isnan(acc_series(f)) && !std::isnan(acc_exact(f))) {
-    double tol = tol_pos(acc_series(f), ea, rg.a12) + tol_pos(acc_exact(f), ea, re.a12);
-    if (!(std::fabs(rg.s12 - re.s12) <= tol)) bad("series-vs-exact", "s12 differs between the solvers by " + std::to_string((rg.s12 - re.s12) * 1e9) + " nm");
+    double tol = tolq(acc_series(f), ea, f, rg.a12) + tolq(acc_exact(f), ea, f, re.a12);
+    if (!(std::fabs(rg.s12 - re.s12) <= tol)) BAD("series-vs-exact", "s12 differs between the solvers by " + std::to_string((rg.s12 - re.s12) * 1e9) + " nm");
   }
+});
+
+
+// ---- every entry point named by the property returns the same geodesic ------------------------------------------------
+// Inverse overloads, the public GenInverse, InverseLine (Geodesic, GeodesicExact, Geodesic(a, f, true))
+template<class Geod, class Line> static void entry_points(const char* name, const Geod& g, double acc, double ea, double f, double lat1, double lon1, double lat2, double lon2) {
+  Inv r = inv(g, lat1, lon1, lat2, lon2); if (std::isnan(r.s12)) return;
+  auto rel = [&](const char* b) { return std::string(b) + "-" + name; };
+  { double s, a1, a2, m, M1, M2, a;
+    a = g.Inverse(lat1, lon1, lat2, lon2, s); if (bits(s) != bits(r.s12) || bits(a) != bits(r.a12)) BAD(rel("inverse-overload"), "Inverse(…, s12) differs from the full overload");
+    a = g.Inverse(lat1, lon1, lat2, lon2, a1, a2); if (bits(a1) != bits(r.azi1) || bits(a2) != bits(r.azi2) || bits(a) != bits(r.a12)) BAD(rel("inverse-overload"), "Inverse(…, azi1, azi2) differs from the full overload");
+    a = g.Inverse(lat1, lon1, lat2, lon2, s, a1, a2); if (bits(s) != bits(r.s12) || bits(a1) != bits(r.azi1) || bits(a2) != bits(r.azi2) || bits(a) != bits(r.a12)) BAD(rel("inverse-overload"), "Inverse(…, s12, azi1, azi2) differs from the full overload");
+    a = g.Inverse(lat1, lon1, lat2, lon2, s, a1, a2, m); if (bits(s) != bits(r.s12) || bits(a1) != bits(r.azi1) || bits(a2) != bits(r.azi2) || bits(m) != bits(r.m12)) BAD(rel("inverse-overload"), "Inverse(…, s12, azi1, azi2, m12) differs from the full overload");
+    a = g.Inverse(lat1, lon1, lat2, lon2, s, a1, a2, M1, M2); if (bits(s) != bits(r.s12) || bits(a1) != bits(r.azi1) || bits(M1) != bits(r.M12) || bits(M2) != bits(r.M21)) BAD(rel("inverse-overload"), "Inverse(…, s12, azi1, azi2, M12, M21) differs from the full overload");
+    a = g.Inverse(lat1, lon1, lat2, lon2, s, a1, a2, m, M1, M2); if (bits(s) != bits(r.s12) || bits(m) != bits(r.m12) || bits(M1) != bits(r.M12) || bits(M2) != bits(r.M21)) BAD(rel("inverse-overload"), "Inverse(…, s12, azi1, azi2, m12, M12, M21) differs from the full overload");
+    double S; a = g.GenInverse(lat1, lon1, lat2, lon2, Geod::ALL, s, a1, a2, m, M1, M2, S);
+    if (bits(s) != bits(r.s12) || bits(a1) != bits(r.azi1) || bits(a2) != bits(r.azi2) || bits(m) != bits(r.m12) || bits(M1) != bits(r.M12) || bits(M2) != bits(r.M21) || bits(S) != bits(r.S12) || bits(a) != bits(r.a12))
+      BAD(rel("geninverse-vs-inverse"), "GenInverse(ALL) differs from Inverse"); }
+  // InverseLine: the line from point 1 with the azimuth of the inverse solution, its reference point 3 is point 2
+  Line L = g.InverseLine(lat1, lon1, lat2, lon2);
+  if (bits(L.Azimuth()) != bits(r.azi1) && !(r.s12 < 1e-3 || r.a12 > 179.9)) BAD(rel("inverseline-azimuth"), "InverseLine starts with azimuth " + std::to_string(L.Azimuth()) + ", Inverse returns " + std::to_string(r.azi1));
+  if (bits(L.Arc()) != bits(r.a12)) BAD(rel("inverseline-arc"), "InverseLine: a13 = " + std::to_string(L.Arc()) + ", Inverse returns a12 = " + std::to_string(r.a12));
+  if (!std::isnan(acc)) { double tol = tolq(acc, ea, f, r.a12);
+    if (!(std::fabs(L.Distance() - r.s12) <= tol)) BAD(rel("inverseline-distance"), "InverseLine: s13 = " + std::to_string(L.Distance()) + ", Inverse returns s12 = " + std::to_string(r.s12));
+    double la, lo; L.Position(L.Distance(), la, lo); double d = (double)oracle::ground(ea, lat2, lon2, la, lo);
+    if (!(d <= 3 * tol)) BAD(rel("inverseline-closure"), "the reference point of InverseLine is " + std::to_string(d * 1e9) + " nm from point 2"); }
+}
+static Reg r_entry("ginv_entry", [](const Args& a) {
+  double ea = unhx(a[0]), f = unhx(a[1]), lat1 = unhx(a[2]), lon1 = unhx(a[3]), lat2 = unhx(a[4]), lon2 = unhx(a[5]);
+  Geodesic G(ea, f), X(ea, f, true); GeodesicExact E(ea, f);
+  class_tag = "";
+  entry_points<Geodesic, GeodesicLine>("series", G, acc_series(f), ea, f, lat1, lon1, lat2, lon2);
+  entry_points<GeodesicExact, GeodesicLineExact>("exact", E, acc_exact(f), ea, f, lat1, lon1, lat2, lon2);
+  entry_points<Geodesic, GeodesicLine>("exact-true", X, acc_exact(f), ea, f, lat1, lon1, lat2, lon2);
+  emit("0");
+});
+
+// ---- tools/GeodSolve -i ------------------------------------------------------------------------------------------------
+static int run_geodsolve(const std::vector<std::string>& args, const std::string& input, std::string& output) {
+  std::vector<const char*> argv; argv.push_back("GeodSolve"); for (auto& s : args) argv.push_back(s.c_str());
+  std::istringstream in(input); std::ostringstream out, err;
+  std::streambuf *oi = std::cin.rdbuf(in.rdbuf()), *oo = std::cout.rdbuf(out.rdbuf()), *oe = std::cerr.rdbuf(err.rdbuf()); std::cin.clear();
+  int rc = -99; try { rc = tool_geodsolve::main(int(argv.size()), argv.data()); } catch (...) { rc = -98; }
+  std::cin.rdbuf(oi); std::cout.rdbuf(oo); std::cerr.rdbuf(oe); std::cin.clear(); std::cout.clear(); std::cerr.clear();
+  output = out.str(); return rc;
+}
+static std::string g17(double x) { char b[40]; std::snprintf(b, sizeof b, "%.17g", x); return b; }
+// coordinates for the front end: multiples of 2^-20 degree, written exactly in fixed notation (DMS does not read exponents)
+static double snap(double x) { return std::ldexp(std::nearbyint(std::ldexp(x, 20)), -20); }
+static std::string f20(double x) { char b[64]; std::snprintf(b, sizeof b, "%.20f", x); return b; }
+// geodsolve_inv variant a f lat1 lon1 lat2 lon2 : the front end prints the geodesic the library returns (10 digits beyond the metre)
+static Reg r_gsolve("geodsolve_inv", [](const Args& a) {
+  int variant = std::atoi(a[0].c_str()); double ea = unhx(a[1]), f = unhx(a[2]), lat1 = snap(unhx(a[3])), lon1 = snap(unhx(a[4])), lat2 = snap(unhx(a[5])), lon2 = snap(unhx(a[6]));
+  class_tag = "";
+  bool exact = variant & 1, full = variant & 2, back = variant & 4, arc = variant & 8, unroll = variant & 16;
+  std::vector<std::string> args = {"-i", "-e", g17(ea), g17(f), "-p", "10"};
+  if (exact) args.push_back("-E"); if (full) args.push_back("-f"); if (back) args.push_back("-b"); if (arc) args.push_back("-a"); if (unroll) args.push_back("-u");
+  std::string out; int rc = run_geodsolve(args, f20(lat1) + " " + f20(lon1) + " " + f20(lat2) + " " + f20(lon2) + "\n", out);
+  Inv r = exact ? inv(GeodesicExact(ea, f), lat1, lon1, lat2, lon2) : inv(Geodesic(ea, f), lat1, lon1, lat2, lon2);
+  emit(std::to_string(rc));
+  if (rc != 0) { BAD("geodsolve-status", "GeodSolve -i exits with " + std::to_string(rc) + " on a valid line: " + out.substr(0, 80)); return; }
+  std::vector<double> v; { std::istringstream is(out); std::string t; while (is >> t) { try { v.push_back(Utility::val<double>(t)); } catch (...) { v.push_back(NAN); } } }
+  size_t need = full ? 12 : 3; if (v.size() != need) { BAD("geodsolve-fields", "GeodSolve -i prints " + std::to_string(v.size()) + " fields: " + out.substr(0, 120)); return; }
+  double pazi1 = full ? v[2] : v[0], pazi2 = full ? v[5] : v[1], pdist = full ? v[6] : v[2];
+  auto angclose = [](double x, double y) { return std::fabs(Math::AngDiff(x, y)) <= 0.51e-15 + 4 * ulp(180.0); };
+  auto close = [](double x, double y, double unit) { return std::fabs(x - y) <= 0.51 * unit + 4 * ulp(y); };
+  if (std::isnan(r.s12)) return;
+  if (!angclose(pazi1, r.azi1)) BAD("geodsolve-azi1", "GeodSolve -i prints azi1 = " + g17(pazi1) + ", the library returns " + g17(r.azi1));
+  if (!angclose(pazi2, back ? r.azi2 + 180 : r.azi2)) BAD("geodsolve-azi2", "GeodSolve -i prints azi2 = " + g17(pazi2) + ", the library returns " + g17(r.azi2) + (back ? " (back azimuth requested)" : ""));
+  if (full) { if (!close(v[6], r.s12, 1e-10) || !close(v[7], r.a12, 1e-15)) BAD("geodsolve-distance", "GeodSolve -i -f prints s12 a12 = " + g17(v[6]) + " " + g17(v[7]) + ", the library returns " + g17(r.s12) + " " + g17(r.a12));
+    if (!close(v[8], r.m12, 1e-10) || !close(v[9], r.M12, 1e-17) || !close(v[10], r.M21, 1e-17) || !close(v[11], r.S12, 1e-3)) BAD("geodsolve-extras", "GeodSolve -i -f prints m12 M12 M21 S12 other than the library returns");
+    if (!close(v[0], lat1, 1e-15) || !close(v[3], lat2, 1e-15) || !angclose(v[1], lon1) || !angclose(v[4], lon2)) BAD("geodsolve-echo", "GeodSolve -i -f does not echo the end points");
+    if (unroll && !(std::fabs((v[4] - v[1]) - Math::AngDiff(lon1, lon2)) <= 1e-13 * (1 + std::fabs(lon1)))) BAD("geodsolve-unroll", "GeodSolve -i -f -u: lon2 - lon1 is not the reduced longitude difference"); }
+  else if (!close(pdist, arc ? r.a12 : r.s12, arc ? 1e-15 : 1e-10)) BAD("geodsolve-distance", "GeodSolve -i prints " + g17(pdist) + ", the library returns " + g17(arc ? r.a12 : r.s12));
 });
 
 // wrapper correspondence: the answer on the original input is the sign/swap image of the answer on the canonical input
@@ -90,7 +198,7 @@ void gv::generate(const std::string& tier, uint64_t seed) {
   auto grid = [&](double lo, double hi) { return std::ldexp(std::floor(std::ldexp(r.range(lo, hi), 20)), -20); };   // exactly representable differences
   for (long i = 0; i < n; ++i) {
     double f = i % 3 == 0 ? fs[0] : r.pick(fs); double a = f == fs[0] ? 6378137.0 : 6.4e6;
-    double lat1, lon1, lat2, lon2; int k = r.irange(0, 13);
+    double lat1, lon1, lat2, lon2; int k = r.irange(0, 23);
     lat1 = r.range(-90, 90); lon1 = r.range(-180, 180); lat2 = r.range(-90, 90); lon2 = r.range(-180, 180);
     switch (k) {
     case 0: { int e = r.irange(1, 12); lat2 = -lat1 + r.range(-1, 1) * std::pow(10.0, -e); lon2 = lon1 + 180 - r.range(0, 1) * std::pow(10.0, -e); break; }   // antipodal astroid region
@@ -108,13 +216,51 @@ void gv::generate(const std::string& tier, uint64_t seed) {
     case 13: { // strongly eccentric ellipsoids (exact solver), nearly antipodal points next to the equator: Newton may fail, bisection must finish
       f = r.pick(std::vector<double>{-0.5, -1.0, -2.0, -3.0, 0.75, 0.5}); a = 6.4e6; double e = std::pow(10.0, -r.range(1, 9));
       lat1 = r.range(-1, 1) * (r.coin() ? 0.01 : 1.0); lat2 = -lat1 + r.range(-1, 1) * e * (f > 0 ? 30 : 1); lon2 = lon1 + 180 - r.range(0, 1) * (f > 0 ? 60 * e * 10 : e); break; }
+    // ---- strata next to the branch boundaries of GenInverse (coverage audit of the deepening round) ----
+    case 14: { // equatorial cut-off lon12s >= f*180: both points on the equator (or latitudes that AngRound sends to 0), lon12 = 180(1-f) ± a few ulp
+      if (!(f > 0)) f = r.pick(std::vector<double>{fs[0], 1 / 150.0, 0.01, 0.02, 1e-3, 0.1, 0.5}); a = f == fs[0] ? 6378137.0 : 6.4e6;
+      lat1 = r.pick(std::vector<double>{0.0, -0.0, 5e-324, -1e-310, 1e-200, -1e-30}); lat2 = r.pick(std::vector<double>{0.0, -0.0, -5e-324, 1e-300});
+      if (r.coin()) lon1 = 0; lon2 = lon1 + 180 * (1 - f); { int u = r.irange(-4, 4); lon2 = u > 0 ? nextup(lon2, u) : nextdn(lon2, -u); } if (r.irange(0, 3) == 0) { double t = lon1; lon1 = lon2; lon2 = t; } break; }
+    case 15: { // tiny non-zero latitudes (1e-18 … 1e-5 degree) with the longitude difference around the equatorial conjugate distance: Newton
+               // stalls, the loop goes through maxit1_ into pure bisection and ends by tripb or maxit2_ (the region of F56 / F28)
+      double e1 = std::pow(10.0, -r.range(5, 18)), e2 = std::pow(10.0, -r.range(5, 18)); lat1 = r.coin() ? e1 : -e1; lat2 = r.irange(0, 2) ? (r.coin() ? e2 : -e2) : -lat1;
+      double c = f > 0 ? 180 * (1 - f) : 180.0; lon2 = lon1 + c - std::pow(10.0, -r.range(0, 12)) * (r.irange(0, 3) ? 1 : -1); if (r.irange(0, 4) == 0) lon2 = lon1 + 180; break; }
+    case 16: { // meridional candidate on the boundary of its acceptance (m12x changes sign / sig12 = 1): opposite meridians, prolate and oblate
+      f = r.pick(std::vector<double>{-0.01, -0.02, -1 / 150.0, -1e-3, -0.1, -0.5, fs[0], 0.02}); a = f == fs[0] ? 6378137.0 : 6.4e6; lon2 = lon1 + (r.irange(0, 3) ? 180.0 : -180.0); lat1 = r.range(-89, 89);
+      Geodesic G0(a, f); auto merid = [&](double l2) { double s, a1, a2; G0.Inverse(lat1, lon1, l2, lon2, s, a1, a2); return std::fabs(a1) == 180 || a1 == 0; };
+      double lo = -lat1, hi = r.coin() ? 90.0 : -90.0; bool plo = merid(lo), phi = merid(hi);
+      if (plo != phi) { for (int it = 0; it < 60 && lo != hi; ++it) { double mid = lo + (hi - lo) / 2; if (mid == lo || mid == hi) break; (merid(mid) == plo ? lo : hi) = mid; } lat2 = r.coin() ? lo : hi; int u = r.irange(-2, 2); lat2 = u > 0 ? nextup(lat2, u) : nextdn(lat2, -u); }
+      else { double t = 1 / Math::degree() * r.pick(std::vector<double>{1.0, 1 - 1e-9, 1 + 1e-9}); lat2 = lat1 > 0 ? 180 - lat1 - t : -180 - lat1 + t; }   // arc over the pole of about one radian
+      if (std::fabs(lat2) > 90) lat2 = -lat1; break; }
+    case 17: { // the short-line exit of InverseStart: arc length around etol2 (0.1 sqrt(eps) / sqrt(max(0.001,|f|) min(1, 1-f/2) / 2))
+      double etol2 = 0.1 * std::sqrt(std::numeric_limits<double>::epsilon()) / std::sqrt(std::fmax(0.001, std::fabs(f)) * std::fmin(1.0, 1 - f / 2) / 2);
+      double d = etol2 / Math::degree() * (1 + r.range(-1, 1) * std::pow(10.0, -r.irange(0, 8))), th = r.range(0, 2 * Math::pi()); lat1 = r.range(-89.9, 89.9);
+      lat2 = lat1 + d * std::cos(th); lon2 = lon1 + d * std::sin(th) / std::cos(lat1 * Math::degree()); if (std::fabs(lat2) > 90) lat2 = lat1; break; }
+    case 18: { // longitude difference of exactly 180 and its neighbours, with longitudes whose difference is not exact (AngDiff error term)
+      lon1 = r.coin() ? r.range(-180, 180) : r.pick(std::vector<double>{0.0, 1e-300, 33.3, -179.99999999999997}); lon2 = lon1 + 180; int u = r.irange(-3, 3); lon2 = u > 0 ? nextup(lon2, u) : nextdn(lon2, -u);
+      if (r.coin()) lat2 = -lat1 + r.pick(std::vector<double>{0.0, 1e-13, -1e-9, 1e-5}); if (std::fabs(lat2) > 90) lat2 = -lat1; if (r.irange(0, 3) == 0) lon2 -= 360; break; }
+    case 19: { // both points at or next to (opposite or the same) poles
+      double d1 = r.irange(0, 2) ? std::pow(10.0, r.range(-15, -1)) : 0, d2 = r.irange(0, 2) ? std::pow(10.0, r.range(-15, -1)) : 0; double s1 = r.coin() ? 1 : -1, s2 = r.coin() ? 1 : -1;
+      lat1 = s1 * (90 - d1); lat2 = s2 * (90 - d2); if (r.irange(0, 2) == 0) lon2 = lon1 + r.pick(std::vector<double>{0.0, 180.0, 90.0, 179.99999999999997, 1e-12}); break; }
+    case 20: { // denormal and tiny latitudes / longitude differences
+      lat1 = r.pick(std::vector<double>{5e-324, -5e-324, 1e-310, -2.2250738585072014e-308, 1e-200, -1e-100, 1e-17, 0.0}); lat2 = r.pick(std::vector<double>{5e-324, -1e-310, 1e-300, 0.0, -1e-17, 1e-9, -lat1, r.range(-90, 90)});
+      lon2 = lon1 + r.pick(std::vector<double>{5e-324, 1e-310, 1e-200, 1e-17, 90.0, 179.0, 180.0, r.range(0, 180)}); if (r.coin()) { lon1 = 0; lon2 = r.pick(std::vector<double>{5e-324, -1e-310, 1e-200, 180.0, 179.99999999999997}); } break; }
+    case 21: { // nearly antipodal on strongly oblate / prolate ellipsoids (both solvers run; only the exact one has a documented accuracy)
+      f = r.pick(std::vector<double>{0.1, -0.1, 0.2, -0.2, 0.5, -0.5, 0.75, -1.0, -3.0}); a = 6.4e6; int e = r.irange(1, 10); lat1 = r.range(-80, 80); lat2 = -lat1 + r.range(-1, 1) * std::pow(10.0, -e);
+      lon2 = lon1 + 180 - r.range(0, 1) * std::pow(10.0, -e + r.irange(0, 2)); break; }
     default: break; }
     if (std::fabs(lat2) > 90) lat2 = std::copysign(90.0, lat2);
     run("ginverse", {hx(a), hx(f), hx(lat1), hx(lon1), hx(lat2), hx(lon2)});
-    stratum("inverse-" + std::to_string(k < 10 ? k : k >= 12 ? k : 10));
+    stratum("inverse-" + std::to_string(k < 10 ? k : k >= 12 && k <= 21 ? k : 10));
     if (i < 3) sample(current_op());
     // pieces of the series solver (Lambda12 on this pair's reduced latitudes, Astroid) through the Lean model
     ginv::model_case(r, a, f, lat1, lat2, lon2 - lon1);
+    // the whole of GenInverse through the Lean model (series solver), and the bookkeeping model on the implementation's kernels (both solvers)
+    // every entry point (Inverse overloads, GenInverse, InverseLine; series, exact, exact = true), the command-line front end
+    if (i % 3 == 1) { run("ginv_entry", {hx(a), hx(f), hx(lat1), hx(lon1), hx(lat2), hx(lon2)}); stratum("entry-points"); }
+    if (i % 5 == 2 && std::fabs(f) <= 0.5) { run("geodsolve_inv", {std::to_string(r.irange(0, 31)), hx(a), hx(f), hx(lat1), hx(lon1), hx(lat2), hx(lon2)}); stratum("tool-geodsolve-i"); }
+    if (f < 1) { run("geninv_series", {hx(a), hx(f), hx(lat1), hx(lon1), hx(lat2), hx(lon2)}); stratum("model-geninv-series");
+      run("geninv_kern", {i % 2 ? "G" : "E", hx(a), hx(f), hx(lat1), hx(lon1), hx(lat2), hx(lon2)}); stratum(std::string("model-geninv-kern-") + (i % 2 ? "series" : "exact")); }
     // wrapper correspondence on inputs with exactly representable longitude differences (so the core sees the same problem)
     double g1 = grid(-90, 90), g2 = grid(-90, 90), h1 = grid(-180, 180) + 360 * r.irange(-1, 1), h2 = grid(-180, 180);
     if (k == 1) g1 = r.pick(std::vector<double>{90, -90, 0, -0.0}); if (k == 2) { g1 = 0; g2 = -0.0; } if (k == 3) h2 = h1 + 180; if (k == 5) { g2 = g1; h2 = h1; } if (k == 7) g2 = -g1;
